@@ -21,6 +21,11 @@ def ops(rng, tier, floats_only=False):
         for p in ("N", "0", "24", "255"):
             for i in (0, 24):
                 out.append(f"dextra BoxMid {p} {i}")
+        # Cell / RefCell around an Option: mandatory fields, a None inside is written (as null) and read back
+        for t, x in (("CellA", "8207f6"), ("CellM", "a2000701f6"), ("RefA", "8207f6"), ("RefM", "a200f60107")):
+            out.append(f"dextra {t} 7 N #X={x}")
+            for p in ("0", "24", "255"):
+                out.append(f"dextra {t} 24 {p}")
         # a type alias of Option<u8> (nil-able by trait, not by spelling) behind decode_with only / encode_with only / no codec
         for t in ("DecOnlyA", "DecOnlyM", "EncOnlyA", "AliasA"):
             for i in (0, 24):
